@@ -8,7 +8,7 @@
 
 const char *const dsim_property = "C08";
 namespace {
-enum { HOLDER = 0, PUB = 1, NGRANT = 2, TRY_OK = 3, GRANT_LOG = 100 /* order of grants */, GRANTS = 200 };
+enum { HOLDER = 0, PUB = 1, NGRANT = 2, TRY_OK = 3, GRANT_LOG = 100 /* order of grants */, GRANTS = 200, REQS = 300 };
 constexpr int ORDERED_BASE = 0, RACER_BASE = 8;
 
 struct Ctx { cocls::mutex mx; };
@@ -28,6 +28,7 @@ void before_release(int me) {
 
 // ordered waiter: a coroutine whose request is known to be published before the next one is issued
 cocls::async<void> ordered_waiter(Ctx &c, int me, int rel) {
+    dsim::cell_add(REQS + me, 1);
     auto own = co_await c.mx.lock();
     on_grant(me);
     dsim::yield();
@@ -43,6 +44,7 @@ cocls::async<void> ordered_waiter(Ctx &c, int me, int rel) {
 
 cocls::async<void> racing_coro(Ctx &c, int me, int rounds) {
     for (int r = 0; r < rounds; r++) {
+        dsim::cell_add(REQS + me, 1);
         auto own = co_await c.mx.lock();
         on_grant(me); dsim::yield(); before_release(me);
         if (r & 1) co_await own.release(); else own.release();
@@ -50,6 +52,7 @@ cocls::async<void> racing_coro(Ctx &c, int me, int rounds) {
 }
 void racing_blocking(Ctx &c, int me, int rounds) {
     for (int r = 0; r < rounds; r++) {
+        dsim::cell_add(REQS + me, 1);
         cocls::mutex::ownership own(c.mx.lock());
         on_grant(me); dsim::yield(); before_release(me);
     }
@@ -70,15 +73,21 @@ void racing_try(Ctx &c, int me, int attempts) {
         }
     }
 }
+
+void lost_request_classifier() {
+    // everything is blocked: if the holder cell is empty, nobody owns the mutex, yet a request is still waiting
+    if (dsim::cell_get(HOLDER) == 0) for (int i = 0; i < 16; i++) if (dsim::cell_get(REQS + i) > dsim::cell_get(GRANTS + i)) dsim::fail("C08.lost_request", "contender %d issued %ld requests, %ld were granted, nobody holds the mutex and nothing can run: the request was lost", i, dsim::cell_get(REQS + i), dsim::cell_get(GRANTS + i));
+}
 }
 
 void dsim_scenario() {
+    dsim::on_deadlock(lost_request_classifier);
     Ctx c;
-    int n_ord = 1 + dsim::choose(4);          // 1..4 ordered waiters
-    int n_rac = dsim::choose(3);              // 0..2 racing contenders
-    int rel[4], rk[2], rr[2];
+    int n_ord = dsim::choose(5);              // 0..4 ordered waiters (0: only releases racing with requests in flight)
+    int n_rac = dsim::choose(4);              // 0..3 racing contenders
+    int rel[4], rk[3], rr[3];
     for (int i = 0; i < n_ord; i++) rel[i] = dsim::choose(4);
-    for (int i = 0; i < n_rac; i++) { rk[i] = dsim::choose(3); rr[i] = 1 + dsim::choose(3); }
+    for (int i = 0; i < n_rac; i++) { rk[i] = dsim::choose(3); rr[i] = 1 + dsim::choose(4); }
     int first_rel = dsim::choose(3);
     dsim::plan_note("ordered=%d racing=%d first_rel=%d rel=", n_ord, n_rac, first_rel);
     for (int i = 0; i < n_ord; i++) dsim::plan_note("%d", rel[i]);
